@@ -257,6 +257,7 @@ Lemma reroot_outgroup_remove_inv strict t names t' :
                           2 <= length (drop_up slc) /\ t' = UNode nc cc (drop_up slc))).
 Proof.
   unfold reroot_outgroup. intros H. cbv zeta in *.
+  destruct (Nat.ltb (length (tips t)) 3); [discriminate|].
   set (t1 := unroot t) in *. set (grp := group t1 names) in *.
   destruct (has_dup (node_names t1)) eqn:Hdup; [discriminate|].
   destruct (Nat.eqb (length grp) 0) eqn:Hk; [discriminate|].
